@@ -6,7 +6,7 @@ use crate::{Law, Prop};
 use kurbo::{cubics_to_quadratic_splines, CubicBez, Line, ParamCurve, Point, QuadBez, QuadSpline, Vec2};
 
 pub fn prop() -> Prop {
-    Prop { id: "C17", corr, laws, extra, law_budget: (120, 2500) }
+    Prop { id: "C17", corr, laws, extra, law_budget: (120, 8000) }
 }
 
 // ------------------------------------------------------------------ generators
@@ -141,7 +141,7 @@ fn spline_obs(s: &Option<QuadSpline>) -> Vec<f64> {
 // ------------------------------------------------------------------ correspondence
 
 fn corr(r: &mut Rng, thorough: bool, o: &mut Out) {
-    let n_cases = if thorough { 2500 } else { 220 };
+    let n_cases = if thorough { 8000 } else { 220 };
     let mut max_depth = 0u32;
     let mut max_n = 0usize;
     for _ in 0..n_cases {
